@@ -320,7 +320,7 @@ def run(ctx):
         universe = list(range(1 << n))
         for size in range(0, len(universe) + 1):
             for keys in itertools.combinations(universe, size):
-                if n <= 2 or ctx.thorough or size <= 3:
+                if n <= 2 or ctx.thorough or size <= 4:
                     orders = itertools.permutations(keys)
                 else:
                     orders = M.all_orders(keys, 4, rng)
@@ -335,13 +335,13 @@ def run(ctx):
     if ctx.thorough:
         masks = range(1, 1 << 16)
     else:
-        masks = sorted({rng.randrange(1, 1 << 16) for _ in range(1200)} | {1, 0xffff, 0x8001, 0x00ff, 0xff00, 0x5555, 0xaaaa})
+        masks = sorted({rng.randrange(1, 1 << 16) for _ in range(4096)} | {1, 0xffff, 0x8001, 0x00ff, 0xff00, 0x5555, 0xaaaa})
     for m in masks:
         keys = [i for i in range(16) if m >> i & 1]
         rng.shuffle(keys)
         int_case(ctx, 4, keys, 'u2', 'w4')
     # --- widths 5..1023, prefix-sharing patterns, several value kinds incl. refs
-    for t in range(ctx.n(700, 7000)):
+    for t in range(ctx.n(1200, 9000)):
         n = M.rand_width(rng)
         keys = M.pattern_keys(rng, n)
         rng.shuffle(keys)
